@@ -103,7 +103,7 @@ func (s *orRuleSetLoader) keyOrObjectEnd(lex lexeme.LexEvent) {
 	case lexeme.ObjectKeyEnd:
 		s.ruleNameLex = lex
 		s.stateFunc = s.valueBegin
-		if s.ruleNameLex.Value().String() == "enum" {
+		if s.ruleNameLex.Value().TrimSpaces().Unquote().String() == "enum" {
 			s.stateFunc = s.enumValueBegin
 		}
 	case lexeme.ObjectEnd:
